@@ -171,7 +171,14 @@ def exactness_check(pid: str, part: str) -> int:
 
     # ---- configuration and spelling dimensions on ansi: a default schema in force; the kinds of JOIN keyword -----------
     sub = stmts[: (120 if quick else 1500)]
+    selfr = [astgen.gen_self_reading(r, r.choice([1, 2, 2])) for _ in range(80 if quick else 800)] if part == "tables" else []
+    quoted = []
+    for st in sub:
+        names = sorted(astgen.local_names(st))
+        quoted.append(records([st], opts=astgen.Opts(rename={nm: '"Loc_%d%s"' % (k, nm) for k, nm in enumerate(names)}))[0])
     for label, recs_v, spec_v in (
+            ("self-reading", records(selfr), spec_strings(selfr) if selfr else []),
+            ("quoted-local-names", quoted, spec[: len(sub)]),
             ("default-schema", [dict(x, config={"DEFAULT_SCHEMA": "dflt"}) for x in records(sub)], spec_strings(sub, ds="dflt")),
             ("join-kinds", records(sub, opts=astgen.Opts(joins="mixed")), spec[: len(sub)])):
         for i, (x, sp) in enumerate(zip(run(recs_v), spec_v)):
@@ -179,7 +186,8 @@ def exactness_check(pid: str, part: str) -> int:
             if "skip" in x:
                 continue
             dist[label] = dist.get(label, 0) + 1
-            case = {"suite": "T3-" + label, "dialect": "ansi", "sql": x["rec"]["sql"], "config": x["rec"].get("config"), "ast": astgen.g_stmt(sub[i])}
+            case = {"suite": "T3-" + label, "dialect": "ansi", "sql": x["rec"]["sql"], "config": x["rec"].get("config"),
+                    "ast": astgen.g_stmt(selfr[i] if label == "self-reading" else sub[i])}
             got = x["impl"] if x["impl"].startswith("ERR") else (tables_part(x["summary"]) if part == "tables" else x["summary"])
             want = tables_part(sp) if part == "tables" else sp
             if got != want:
